@@ -3,7 +3,7 @@
 mapping policy = ([ ]);
 int log_applies = 0;
 
-void create() { }
+void create() { policy["creator"] = ([ "d1" : "d1", "d2" : "d2", "bb" : "Backbone" ]); }
 
 void set_policy(string k, mixed v) { policy[k] = v; }
 mixed query_policy(string k) { return policy[k]; }
